@@ -8,8 +8,7 @@ from sa.raises import Escapes
 from sa.project import dotted, walk_local, AnalysisError
 from rules.common import mutator_nodes
 
-EXPLANATION = (
-    "Validate-before-effect shape decided on CFG/call graph: R1 in dispatch "
+EXPLANATION = (    "Validate-before-effect shape decided on CFG/call graph: R1 in dispatch "
     "cmd.validate dominates cmd.execute and the invalid-JSON / unknown-command "
     "returns precede both; R2 every validator (Command.validate, its overrides, "
     "validate_option) is effect-free: no arbiter/watcher access, no mutator in "
@@ -23,7 +22,9 @@ EXPLANATION = (
     "dependent raise (otherwise an earlier key of the same request is already "
     "applied when the error is answered); R6 kill/signal parse the signal "
     "designation in validate, map the parser's refusal to MessageError, and the "
-    "parser can only refuse with the exception type they catch. Decides these "
+    "parser can only refuse with the exception type they catch."
+    "R7 (shared with C10 R1) a conflict refusal leaves the exclusive slot untouched. "
+    "Decides these "
     "necessary conditions, not equality of the full daemon state.")
 ASSUMPTIONS = ["totality table of conversions (int on int/bool, float on int/float, to_bool on "
                "bool, to_signum on int) is frozen in the rule and confirmed by reading util.py"]
